@@ -1,7 +1,7 @@
 (* PipelineChainProofs.v — composition of the stages: the full statement of C16 for declared packages *)
 From Coq Require Import String Ascii List Arith NArith Bool Lia ZifyN ZifyNat ZifyBool Permutation.
 From J5V.lib Require Import Outcome Corr.
-From J5V.model Require Import Pipeline PipelineCorr.
+From J5V.model Require Import Pipeline PipelineCompile PipelineCorr.
 From J5V.gen Require SwaggerGen.
 From J5V.proofs Require Import PipelineProofs.
 Import ListNotations.
